@@ -297,8 +297,18 @@ Definition row_ok (nd : need) (r : row) : bool := row_indep r && row_faithful nd
 (* ------------------------------------------------------------------ classes, routes, the specification *)
 Inductive kls := KPromolecule | KConnectivity | KGeometry | KStructure | KMolecule | KEnsemble | KConformer
                | KAtom | KBond.
+(* keyword arguments of a copy-constructor call that replace a field of the source:
+   dst(source, name=..., charge=..., mult=..., coords=..., atomic_charges=..., weights=...) *)
+Record ovr := mk_ovr { v_name : bool; v_charge : bool; v_mult : bool; v_coords : bool; v_charges : bool; v_weights : bool }.
+Definition ovr_eqb (a b : ovr) : bool :=
+  Bool.eqb (v_name a) (v_name b) && Bool.eqb (v_charge a) (v_charge b) && Bool.eqb (v_mult a) (v_mult b)
+  && Bool.eqb (v_coords a) (v_coords b) && Bool.eqb (v_charges a) (v_charges b) && Bool.eqb (v_weights a) (v_weights b).
+Definition ovr_scal (v : ovr) : bool := v_name v || v_charge v || v_mult v.
+Definition ovr_mask (v : ovr) : list bool := [v_name v; v_charge v; v_mult v].   (* order of the scal list *)
+
 Inductive route :=
 | RCtor (dst : kls)      (* dst(source) *)
+| RCtorWith (dst : kls) (v : ovr)   (* dst(source, <the keyword arguments named by v>) *)
 | REvolve                (* Atom.evolve / Bond.evolve *)
 | RPickle | RDeepcopy
 | RConcat (dst : kls) (k : nat)    (* dst.concatenate of k sources *)
@@ -320,7 +330,7 @@ Definition is_ens (k : kls) : bool := match k with KEnsemble => true | _ => fals
 (* class of the result of a route applied to a source of class k *)
 Definition dst_of (k : kls) (r : route) : kls :=
   match r with
-  | RCtor d | RConcat d _ | RJoin d => d
+  | RCtor d | RCtorWith d _ | RConcat d _ | RJoin d => d
   | REnsFromList => KEnsemble
   | _ => k
   end.
@@ -329,6 +339,19 @@ Definition dst_of (k : kls) (r : route) : kls :=
    have; a derived molecule (concatenate / join / ensemble-from-list) reproduces its sources' atoms and
    bonds and partial charges -- and, for concatenate, coordinates; a join computes new
    coordinates; name / charge / multiplicity / attributes of a derived molecule are its own. *)
+Definition copy_need (k d : kls) : need :=
+  if is_ens k || is_ens d then
+    let both := is_ens k && is_ens d in
+    mk_need (has_bonds k && has_bonds d) both both both true true
+  else
+    mk_need (has_bonds k && has_bonds d) (has_coords k && has_coords d) (has_charges k && has_charges d)
+            false true true.
+(* a field replaced by a keyword argument is not the source's any more; everything else still is.
+   (name / charge / mult live in one list: the kept ones are pinned by `pick_scal` below.)
+   Independence is NOT relaxed: `row_indep` does not look at the need. *)
+Definition mask_ovr (v : ovr) (nd : need) : need :=
+  mk_need (n_bonds nd) (n_coords nd && negb (v_coords v)) (n_charges nd && negb (v_charges v))
+          (n_weights nd && negb (v_weights v)) (n_scal nd && negb (ovr_scal v)) (n_attrib nd).
 Definition need_of (k : kls) (r : route) : need :=
   let d := dst_of k r in
   match r with
@@ -336,18 +359,14 @@ Definition need_of (k : kls) (r : route) : need :=
   | RJoin _ => mk_need true false (has_charges k && has_charges d) false false false
   | REnsFromList => mk_need true false false false true true
   | REvolve => mk_need false false false false false false
-  | _ =>
-    if is_ens k || is_ens d then
-      let both := is_ens k && is_ens d in
-      mk_need (has_bonds k && has_bonds d) both both both true true
-    else
-      mk_need (has_bonds k && has_bonds d) (has_coords k && has_coords d) (has_charges k && has_charges d)
-              false true true
+  | RCtorWith _ v => mask_ovr v (copy_need k d)
+  | _ => copy_need k d
   end.
 
 Definition route_eqb (a b : route) : bool :=
   match a, b with
   | RCtor x, RCtor y => kls_eqb x y
+  | RCtorWith x v, RCtorWith y w => kls_eqb x y && ovr_eqb v w
   | REvolve, REvolve | RPickle, RPickle | RDeepcopy, RDeepcopy | REnsFromList, REnsFromList => true
   | RConcat x i, RConcat y j => kls_eqb x y && Nat.eqb i j
   | RJoin x, RJoin y => kls_eqb x y
@@ -406,7 +425,27 @@ Definition entry_ok (known : known_t) (e : entry) : bool :=
    pickle and deepcopy of all seven, evolve of atoms and bonds, the derived-molecule routes *)
 Definition copyable : list kls := [KPromolecule; KConnectivity; KGeometry; KStructure; KMolecule; KEnsemble].
 Definition sources : list kls := copyable ++ [KConformer].
+(* keyword overrides: which a class accepts; every single one and all of them together *)
+Definition takes_coords (d : kls) : bool := match d with KGeometry | KStructure | KMolecule | KEnsemble => true | _ => false end.
+Definition takes_charges (d : kls) : bool := match d with KMolecule | KEnsemble => true | _ => false end.
+Definition ovr_applies (d : kls) (v : ovr) : bool :=
+  (negb (v_coords v) || takes_coords d) && (negb (v_charges v) || takes_charges d) && (negb (v_weights v) || is_ens d).
+Definition ovr_all (d : kls) : ovr := mk_ovr true true true (takes_coords d) (takes_charges d) (is_ens d).
+Definition ovr_singles : list ovr :=
+  [mk_ovr true false false false false false; mk_ovr false true false false false false;
+   mk_ovr false false true false false false; mk_ovr false false false true false false;
+   mk_ovr false false false false true false; mk_ovr false false false false false true].
+Definition ovr_sets (d : kls) : list ovr := ovr_all d :: filter (ovr_applies d) ovr_singles.
+Definition required_with : list (kls * route) :=
+  flat_map (fun k => map (fun v => (k, RCtorWith k v)) (ovr_sets k)) copyable
+  ++ map (fun v => (KConformer, RCtorWith KMolecule v)) (ovr_sets KMolecule)
+  ++ map (fun v => (KMolecule, RCtorWith KStructure v)) (ovr_sets KStructure)
+  ++ map (fun v => (KStructure, RCtorWith KMolecule v)) (ovr_sets KMolecule)
+  ++ map (fun v => (KMolecule, RCtorWith KEnsemble v)) (ovr_sets KEnsemble)
+  ++ map (fun v => (KConformer, RCtorWith KEnsemble v)) (ovr_sets KEnsemble).
+
 Definition required : list (kls * route) :=
+  required_with ++
   map (fun k => (k, RCtor k)) copyable
   ++ [(KConformer, RCtor KMolecule); (KMolecule, RCtor KStructure); (KStructure, RCtor KMolecule)]
   ++ map (fun k => (k, RPickle)) sources ++ map (fun k => (k, RDeepcopy)) sources
@@ -573,11 +612,36 @@ Record case := mk_case {
 Definition watch_ok (h : heap) (w : list (loc * option obsr)) : bool :=
   forallb (fun lo => obs_eqb (obs h (fst lo)) (snd lo)) w.
 
+(* ------------------------------------------------------------------ copy with keyword overrides *)
+(* name / charge / mult of dst(source, ...): a named one takes the value of the keyword argument, every other
+   one is the source's.  sc = the source's list, gs = the values of the call (positions not named are ignored). *)
+Fixpoint pick_scal (mask : list bool) (sc gs : list Z) {struct sc} : list Z :=
+  match sc with
+  | [] => []
+  | s :: sr =>
+      match mask with
+      | [] => s :: sr
+      | b :: mr => (if b then match gs with g :: _ => g | [] => s end else s) :: pick_scal mr sr (tl gs)
+      end
+  end.
+(* what the call supplies: for a route with overrides the `given` record carries the keyword arguments of
+   the call (NOT what was read back from the result): the arrays as passed, the scalars merged by pick_scal *)
+Definition given_for (rt : route) (sc : list Z) (g : given) : given :=
+  match rt with
+  | RCtorWith _ v => mk_given (pick_scal (ovr_mask v) sc (g_scal g)) (g_coords g) (g_charges g) (g_weights g)
+  | _ => g
+  end.
+Definition copy_route (rt : route) (r : row) (g : given) (dcls : Z) (h : heap) (o : loc) : option (heap * loc) :=
+  match get h o with
+  | CMol _ sc _ _ _ _ _ _ => copy_row r (given_for rt sc g) dcls h o
+  | _ => None
+  end.
+
 Definition check_case (t : list entry) (c : case) : bool :=
   match lookup_row t (c_kls c) (c_route c) with
   | None => false
   | Some r =>
-    match copy_row r (c_given c) (kls_code (dst_of (c_kls c) (c_route c))) (c_h0 c) (c_root c) with
+    match copy_route (c_route c) r (c_given c) (kls_code (dst_of (c_kls c) (c_route c))) (c_h0 c) (c_root c) with
     | None => false
     | Some (h1, o') =>
         heap_eqb h1 (c_h1 c) && watch_ok h1 (c_watch1 c)
